@@ -465,6 +465,9 @@ func (fc *FontConfigurationGotext) wrapWordBreak(text []rune, style *TextStyle, 
 	config := shaping.WrapConfig{
 		Direction:   outputs[0].Direction, // overall direction of the text, deduced from the first runes
 		BreakPolicy: shaping.Never,        // mimic the default pango behavior
+		// the trailing spaces of a text run take room when more content follows on the line;
+		// those at the end of a line are removed by the layout
+		DisableTrailingWhitespaceTrim: true,
 	}
 	if allowWordBreak {
 		config.BreakPolicy = shaping.Always
